@@ -328,3 +328,218 @@ func genAltCase(r *gen.Rand, n int) AltCase {
 	}
 	return c
 }
+
+// ---------------------------------------------------------------------------------------------
+// `c11 reuse N`: streams whose destination measurement is taken to share the source's distribution
+// (routeAndCalculateStreamRows cases 2 and 3): the destination shard is chosen with the SOURCE row's shard-key bytes.
+// Only the routing step is driven (hook VerifC11RouteStreamReuse); which case applies is decided here exactly as the
+// dispatch does: case 2 = the database has a shard key (same database), case 3 = no database key and the source measurement
+// has one key version equal (as a set) to the stream's dimensions - the DESTINATION's key is not looked at by the dispatch.
+
+type ReusePoint struct {
+	Tags  [][2]string `json:"tags"`  // source row
+	DTags [][2]string `json:"dtags"` // the stream's result row: the dimensions
+	Time  int64       `json:"time"`
+	Err   string      `json:"err"`
+	GID   uint64      `json:"gid"`
+	SID   uint64      `json:"sid"` // shard of the DESTINATION measurement
+	HKey  string      `json:"hkey"`
+	Hash  string      `json:"hash"`
+	Leaf  []bool      `json:"leaf"`
+	Sat   bool        `json:"sat"`
+}
+
+type ReuseCase struct {
+	Reuse    int          `json:"reuse"`
+	Case     int          `json:"case"` // 2 or 3
+	TagKeys  []string     `json:"tagkeys"`
+	SrcSK    []string     `json:"srcsk"`
+	DstSK    []string     `json:"dstsk"`
+	DBSK     []string     `json:"dbsk"`
+	Dims     []string     `json:"dims"`
+	SrcVer   string       `json:"srcver"`
+	DstVer   string       `json:"dstver"`
+	PtNum    int          `json:"ptnum"`
+	CondText string       `json:"condtext"`
+	Cond     *Node        `json:"cond"`
+	Points   []ReusePoint `json:"points"`
+	Groups   []Group      `json:"groups"`
+	Targets  []Target     `json:"targets"`
+	NShards  int          `json:"nshards"`
+	Oracle   []string     `json:"oracle"`
+}
+
+func sameSet(a, b []string) bool {
+	if len(a) != len(b) {
+		return false
+	}
+	x, y := append([]string{}, a...), append([]string{}, b...)
+	sort.Strings(x)
+	sort.Strings(y)
+	for i := range x {
+		if x[i] != y[i] {
+			return false
+		}
+	}
+	return true
+}
+
+func genReuseCase(r *gen.Rand, n int) ReuseCase {
+	c := ReuseCase{Reuse: n, Oracle: []string{}}
+	c.TagKeys = pickKeys(r, []string{"az", "dc", "host", "rack", "zone"}, r.Range(2, 4))
+	c.PtNum = r.Range(2, 8)
+	if r.Chance(1, 3) {
+		c.Case = 2
+		c.DBSK = pickKeys(r, c.TagKeys, 1)
+		c.Dims = pickKeys(r, c.TagKeys, r.Range(1, len(c.TagKeys)))
+		if !sameSet(append(append([]string{}, c.Dims...), c.DBSK...), c.Dims) { // the dimensions carry the key column
+			has := false
+			for _, d := range c.Dims {
+				has = has || d == c.DBSK[0]
+			}
+			if !has {
+				c.Dims = append(c.Dims, c.DBSK[0])
+				sort.Strings(c.Dims)
+			}
+		}
+		if r.Chance(1, 2) {
+			c.SrcSK = pickKeys(r, c.TagKeys, 1)
+		}
+		if r.Chance(1, 2) {
+			c.DstSK = pickKeys(r, c.Dims, 1)
+		}
+	} else {
+		c.Case = 3
+		c.SrcSK = pickKeys(r, c.TagKeys, r.Range(1, 2))
+		c.Dims = append([]string{}, c.SrcSK...)
+		switch r.Intn(4) {
+		case 0, 1:
+			c.DstSK = append([]string{}, c.SrcSK...)
+		case 2:
+			c.DstSK = nil
+		default: // created beforehand with another key; case 3 does not look at it
+			c.DstSK = pickKeys(r, c.Dims, 1)
+			if sameSet(c.DstSK, c.SrcSK) {
+				c.DstSK = nil
+			}
+		}
+	}
+	cfg := Cfg{Msts: []MstCfg{{Mst: "cs", TagKeys: c.TagKeys, SK: c.SrcSK}, {Mst: "ds", TagKeys: c.TagKeys, SK: c.DstSK}}, DBSK: c.DBSK,
+		Typ: meta.HASH, Dur: int64(time.Hour), PtNum: c.PtNum}
+	w := newWorld(cfg)
+	src, dst := w.msts[0], w.msts[1]
+	c.SrcVer, c.DstVer = src.Name, dst.Name
+	inForceDst := c.DstSK
+	if len(c.DBSK) > 0 {
+		inForceDst = c.DBSK
+	}
+	var parts []string
+	keys := c.Dims
+	if len(inForceDst) > 0 && r.Chance(2, 3) {
+		keys = inForceDst
+	}
+	for _, k := range keys {
+		parts = append(parts, `"`+k+`" = `+quote(gen.Pick(r, valPool[:3])))
+	}
+	c.CondText = strings.Join(parts, " AND ")
+	cond, err := influxql.ParseExpr(c.CondText)
+	if err != nil {
+		c.Oracle = append(c.Oracle, "setup: "+err.Error())
+		return c
+	}
+	var leafExprs []influxql.Expr
+	c.Cond = toNode(cond, &leafExprs)
+	base := alignedStart(int64(1700000000)*1000000000, int64(time.Hour))
+	router := coordinator.VerifC11NewRouter(w.mc, w.dbi, src)
+	w.mc.cur = -1
+	np := r.Range(8, 14)
+	for i := 0; i < np; i++ {
+		p := ReusePoint{Time: base + int64(r.Intn(2))*int64(time.Hour) + int64(r.Intn(1000))}
+		for _, k := range c.TagKeys {
+			p.Tags = append(p.Tags, [2]string{k, gen.Pick(r, valPool[:3])})
+		}
+		for _, t := range p.Tags {
+			for _, d := range c.Dims {
+				if d == t[0] {
+					p.DTags = append(p.DTags, t)
+				}
+			}
+		}
+		row := influx.Row{Name: src.Name, Timestamp: p.Time}
+		for _, t := range p.Tags {
+			row.Tags = append(row.Tags, influx.Tag{Key: t[0], Value: t[1]})
+		}
+		row.Fields = append(row.Fields, influx.Field{Key: "usage", NumValue: 1, Type: influx.Field_Type_Float})
+		err, sh, perr := router.Route(dbName, rpName, &row) // the source row's own routing builds row.ShardKey
+		if err == nil && perr == nil && sh != nil {
+			p.HKey = string(row.ShardKey)
+			p.Hash = fmt.Sprintf("%d", meta.HashID(row.ShardKey))
+			err, sh, perr = coordinator.VerifC11RouteStreamReuse(w.mc, w.dbi, dst, dbName, rpName, &row)
+		}
+		switch {
+		case err != nil:
+			p.Err = "other:" + err.Error()
+			c.Oracle = append(c.Oracle, fmt.Sprintf("route: point %d: %s", i, p.Err))
+		case perr != nil || sh == nil:
+			p.Err = "rejected"
+		default:
+			p.SID = sh.ID
+			for gi := range w.rpi.ShardGroups {
+				sg := &w.rpi.ShardGroups[gi]
+				for si := range sg.Shards {
+					if sg.Shards[si].ID == sh.ID {
+						p.GID = sg.ID
+						ts := time.Unix(0, p.Time)
+						if ts.Before(sg.StartTime) || !ts.Before(sg.EndTime) {
+							c.Oracle = append(c.Oracle, fmt.Sprintf("route: point %d stored in group %d which does not cover t", i, sg.ID))
+						}
+					}
+				}
+			}
+		}
+		c.Points = append(c.Points, p)
+	}
+	tmin, tmax := time.Unix(0, -9223372036854775806).UTC(), time.Unix(0, 9223372036854775806).UTC()
+	mapped, err := coordinator.VerifC11MapMstShards(w.mc, dbName, rpName, "ds", tmin, tmax, cond)
+	if err != nil {
+		c.Oracle = append(c.Oracle, "mapMstShards: "+err.Error())
+	}
+	consulted := map[uint64]bool{}
+	for _, id := range mapped {
+		consulted[id] = true
+	}
+	w.walive = map[uint64][]int{}
+	for gi := range w.rpi.ShardGroups {
+		sg := &w.rpi.ShardGroups[gi]
+		al := w.mc.GetAliveShards(dbName, sg, true)
+		c.NShards += len(al)
+		w.walive[sg.ID] = al
+		t := Target{GID: sg.ID, SIDs: []uint64{}}
+		for _, sh := range sg.Shards {
+			if consulted[sh.ID] {
+				t.SIDs = append(t.SIDs, sh.ID)
+			}
+		}
+		c.Targets = append(c.Targets, t)
+	}
+	c.Groups = w.snapshotGroups()
+	for i := range c.Points {
+		p := &c.Points[i]
+		m := map[string]interface{}{"usage": float64(1)}
+		for _, k := range c.TagKeys {
+			m[k] = ""
+		}
+		for _, t := range p.DTags {
+			m[t[0]] = t[1]
+		}
+		p.Sat = influxql.EvalBool(cond, m)
+		p.Leaf = make([]bool, len(leafExprs))
+		for li, le := range leafExprs {
+			p.Leaf[li] = influxql.EvalBool(le, m)
+		}
+		if p.Err == "" && p.Sat && !consulted[p.SID] {
+			c.Oracle = append(c.Oracle, fmt.Sprintf("prune: point %d (result row %v of source row %v) satisfies %s on the destination but its shard %d of group %d is not consulted", i, p.DTags, p.Tags, c.CondText, p.SID, p.GID))
+		}
+	}
+	return c
+}
